@@ -14,6 +14,7 @@
    pids / hpc ids / batch indices as in the trace.  No proofs in this file. *)
 From Coq Require Import List ZArith NArith Bool Arith.
 From Jade Require Import Base.
+From Jade.Gen Require Import RoundGen.
 Import ListNotations.
 Open Scope N_scope.
 
@@ -153,6 +154,7 @@ Inductive event :=
 | EKill (pids : list N).
 
 (* ---------- helpers ---------- *)
+Definition isnil {A} (l : list A) : bool := match l with [] => true | _ => false end.
 Definition upd {A} (f : N -> A) (k : N) (v : A) : N -> A := fun x => if N.eqb x k then v else f x.
 Fixpoint lookup {A} (k : N) (l : list (N * A)) : option A :=
   match l with [] => None | (k', v) :: r => if N.eqb k k' then Some v else lookup k r end.
@@ -295,7 +297,10 @@ Definition step (sc : scenario) (s : state) (e : event) : option state :=
       else None
     | None => None
     end
-  | ESqueueFail p => match in_round s p with Some _ => Some s | None => None end
+  | ESqueueFail p =>
+    match in_round s p with
+    | Some r => if negb (r_collected r) && negb (r_owns r) then Some s else None
+    | None => None end
   | ECollect p rs =>
     match in_round s p with
     | Some r =>
@@ -320,7 +325,7 @@ Definition step (sc : scenario) (s : state) (e : event) : option state :=
     match in_round s p with
     | Some r =>
       if is_job sc j && jstate_eqb (r_st r j) NS && flag sc j && has_failed_dep sc j (processed s)
-         && negb (r_owns r) && negb (r_updated r) && negb (marker s) then
+         && negb (r_owns r) && negb (r_updated r) && negb (marker s) && r_collected r then
         let rw := {| rw_job := j; rw_rc := 1%Z; rw_cancel := true |} in
         let r' := {| r_pid := r_pid r; r_alive := true; r_st := upd (r_st r) j DONE;
                      (* the canceled name is removed from the other blocker sets in the next pass of the loop *)
@@ -357,11 +362,14 @@ Definition step (sc : scenario) (s : state) (e : event) : option state :=
     | None => None
     end
   | EMarkerFound p =>
-    match in_round s p with Some r => if marker s && negb (r_owns r) then Some s else None | None => None end
+    match in_round s p with
+    | Some r => if marker s && negb (r_owns r) && negb (r_polled r) && negb (r_collected r) then Some s else None
+    | None => None end
   | ESbatch p idx g jobs nproc res =>
     match in_round s p with
     | Some r =>
       if r_owns r && negb (r_updated r) && negb (r_canceled r) && negb (complete s)
+         && (match r_check r with None => true | Some _ => false end)
          && N.eqb idx (r_index r) && valid_batch sc r g jobs
          && depth_ok (sc_max_nodes sc) (N.of_nat (length (r_out r)))
          && (if hk_setup (sc_hooks sc) && r_creator r then r_setup r else true)
@@ -392,7 +400,7 @@ Definition step (sc : scenario) (s : state) (e : event) : option state :=
   | EUpdate p sn =>
     match in_round s p with
     | Some r =>
-      if negb (r_updated r) && r_owns r
+      if negb (r_updated r) && r_owns r && (match r_check r with None => true | Some _ => false end)
          && forallb (update_ok_job r sn) (all_jobs sc)
          && eqsetN (sn_ids sn) (r_out r) && nodupbN (sn_ids sn)
          && N.eqb (sn_index sn) (r_index r)
@@ -416,10 +424,12 @@ Definition step (sc : scenario) (s : state) (e : event) : option state :=
     match in_round s p with
     | Some r =>
       let all_done := forallb (fun j => jstate_eqb (r_st r j) DONE) (all_jobs sc) in
-      if Bool.eqb b (all_done || match ids s with [] => true | _ => false end)
-         && (r_updated r || (match r_placed r with [] => true | _ => false end))
-         && r_owns r && (r_updated r || eqsetN (r_out r) (ids s))
-         && (r_updated r || (match r_seen r with [] => true | _ => false end))
+      (* _is_complete as HpcSubmitter defines it (Gen/RoundGen.v), evaluated after the status update; the update may
+         be skipped only when _update_status's own test says nothing changed *)
+      if Bool.eqb b (check_complete all_done (isnil (ids s)))
+         && r_owns r
+         && (r_updated r || negb (update_needed (negb (isnil (r_seen r))) (negb (isnil (r_placed r))) false
+                                                (negb (eqsetN (r_out r) (ids s)))))
          && round_maximal sc r then
         Some (set_session s {| r_pid := r_pid r; r_alive := true; r_st := r_st r; r_bl := r_bl r; r_index := r_index r;
                r_out := r_out r; r_round := true; r_canceled := r_canceled r; r_owns := r_owns r;
@@ -546,7 +556,8 @@ Definition step (sc : scenario) (s : state) (e : event) : option state :=
   | EMarkCanceled p =>
     match acting s p with
     | Some r =>
-      if negb (r_round r) then
+      (* cancel-jobs asked the scheduler to cancel every batch the status lists before it sets the flag *)
+      if negb (r_round r) && forallb (fun i => negb (memN i (active_ids s))) (ids s) then
         Some {| created := created s; st := st s; bl := bl s; ids := ids s; next_index := next_index s;
                 holder := Some {| r_pid := r_pid r; r_alive := true; r_st := r_st r; r_bl := r_bl r;
                      r_index := r_index r; r_out := r_out r; r_round := r_round r; r_canceled := true;
